@@ -32,6 +32,9 @@ type c03run[K comparable] struct {
 	real  col.CatalogLike[K, int]
 	model []kv[K]
 	muted bool
+	// the catalog handed to MakeFromSequence must stay what it was
+	srcCat  col.CatalogLike[K, int]
+	srcWant string
 }
 
 func (r *c03run[K]) modelStr() string {
@@ -358,6 +361,13 @@ func (r *c03run[K]) step(rng *core.Rng) {
 		return
 	}
 	r.observe(op)
+	if r.srcCat != nil && !r.Failed {
+		r.Guard(op, func() {
+			if got := assocStr(r.d, r.srcCat.AsArray()); got != r.srcWant {
+				r.Fail(op+"/constructor-argument-changed", "the catalog passed to MakeFromSequence changed: now %s, was %s", got, r.srcWant)
+			}
+		})
+	}
 	if r.muted {
 		r.C.Cover("catalog." + op)
 		r.C.Distinct(core.Mix(core.HashStr(r.d.Name), core.HashStr(before), core.HashStr(op+"/"+arg)))
@@ -422,6 +432,7 @@ func (r *c03run[K]) construct(rng *core.Rng) bool {
 			r.Log("Catalog.MakeFromSequence(catalog %v %v)", strs(r.d, ks), vs)
 			src := C.MakeFromArray(mkAssocs())
 			r.real = C.MakeFromSequence(src)
+			r.srcCat, r.srcWant = src, assocStr(r.d, src.AsArray())
 			for i := range ks {
 				r.set(ks[i], vs[i])
 			}
